@@ -165,3 +165,31 @@ Print Assumptions C10_transform_SIS_histories_legal.
 Print Assumptions C10_ex_transform.
 Print Assumptions C10_ex_hypotheses.
 Print Assumptions C10_ex_summary.
+
+(* ------------------------------------------------------------------ *)
+From EoNV Require Samp SampP Gillespie GillespieInv GillespieP GillespieLog GillespieC10.
+
+(* (iv) per simulator: Gillespie_SIR / Gillespie_SIS.  Every full-data run (every graph,
+   rates, weights, initial sets, every draw script): the per-node histories returned by
+   node_history are the per-node projections of ONE event log, the arrays are its running
+   counts, and therefore (log lemma) the summary of the histories equals the arrays —
+   whenever the event times are strictly increasing after tmin (no two events at the same
+   instant: probability one). *)
+Theorem C10_gillespie_summary_equals_arrays :
+  forall g, GillespieInv.wfg g -> NoDup (gnodes g) -> (forall u v, In v (gadj g u) -> In v (gnodes g)) ->
+  forall kind tau gamma tmin tmax i0 r0 fuel out, GillespieP.wf_init g kind i0 r0 ->
+    SampP.reach (Gillespie.gillespie g kind tau gamma (Some i0) r0 None tmin tmax true fuel) out ->
+    exists (evs : list GillespieLog.ev) (fd : fulldata),
+      so_full out = Some fd /\
+      (increasing tmin evs = true ->
+         fd_hist fd = iv_hist (log_inv (gnodes g) (GillespieC10.ps_of kind) tmin (GillespieP.st_init i0 (GillespieP.r0_list kind r0)) evs) /\
+         so_rows out = log_arrays (gnodes g) (GillespieC10.ps_of kind) tmin (GillespieP.st_init i0 (GillespieP.r0_list kind r0)) evs /\
+         (gnodes g <> [] ->
+          summary (log_inv (gnodes g) (GillespieC10.ps_of kind) tmin (GillespieP.st_init i0 (GillespieP.r0_list kind r0)) evs) None
+            = Ok (so_rows out))).
+Proof. exact GillespieC10.gillespie_summary_equals_arrays. Qed.
+
+(* with and without return_full_data the same draws give the same arrays (Props/C18.v,
+   C18_gillespie_full_data_flag_independent), so the arrays above are also the ones the
+   plain mode returns *)
+Print Assumptions C10_gillespie_summary_equals_arrays.
